@@ -568,6 +568,9 @@ func RulesText(f *Field) string {
 	if r.StrConst != nil {
 		str = append(str, "const: "+q(*r.StrConst))
 	}
+	if r.WellKnownOff != "" {
+		str = append(str, r.WellKnownOff+": false")
+	}
 	if r.WellKnown != "" {
 		str = append(str, r.WellKnown+": true")
 	}
